@@ -266,7 +266,7 @@ var props = map[string]*propConfig{
 		Rule:        "one run = 2..8 starter processes (child marker unset / 1 / 2 / junk, crash-reporting flag, upload flag) calling the real Start concurrently with mode on / local / off / missing / garbage and the upload token absent / fresh / stale (incl. exactly 24 h), interleaved at file-system-call granularity (stat token, remove, exclusive create), some starters hours apart; spawned children run the real child path (marker rewrite, counter.Open, upload.Run) and the stubbed config download spawns a descendant that calls Start again; checked at every spawn: mode not off, spawner not a telemetry child or descendant, upload flag only with a token acquired in this call and requested, otherwise crash reporting requested; mode off: no mutating call, directory unchanged; within-24h family: at most one token acquisition (none if a fresh token exists); a third of the processes enter through MaybeChild before Start (only a process marked 1 may stay in it); mode files as the commands write them or hand-written (no date, trailing newline, CRLF, surrounding spaces); a separate per-user default directory with its own mode; the n-th start of a telemetry child may fail and the debug directory may exist (sidecar.log possibly a directory); marker near-misses (0, 3, 01, 1 with a trailing space, true, 11); an inherited upload variable; one file-system call of the run may fail; a process in the sidecar role may touch nothing before it has rewritten its marker",
 		Real:        []string{"Start, parent, startChild, child, uploaderChild, acquireUploadToken (start.go)", "counter.Open / internal/counter", "internal/upload.Run", "internal/telemetry"},
 		Stub:        []string{"process creation, environment, os.Exit, log.Fatal: simulated process table", "internal/crashmonitor.Parent/Child (they take over crash output and stdin)", "the `go` command run by internal/configstore.Download (real code): a simulated descendant that calls Start with the inherited environment and prints the directory of an empty config", "upload server (always 200)", "clock and file modification times"},
-		Assumptions: []string{"simulated processes share one address space: package-level state of internal/counter (the default file) is shared by them", "the statement is only-if: whether a child must be launched when permitted is not checked"},
+		Assumptions: []string{"simulated processes share one address space: package-level state of internal/counter (the default file) is shared by them", "the statement is only-if: whether a child must be launched when permitted is not checked", "the token is observed as the exclusive creation of local/upload.token and a telemetry child as a process whose marker variable is 1 and becomes 2: other mechanisms for the same clauses would need other observers"},
 		Probes:      []string{"spawned", "token-acquired", "mode-off", "token-2"},
 	},
 	"C12": {
@@ -276,7 +276,7 @@ var props = map[string]*propConfig{
 		Rule:        "one run = a stream of 3..14 requests to the real upload handler behind its real middleware chain and a real file-system bucket: all methods; bodies that are valid approved reports (incl. ~100 KiB ones and hostile X values), reports with exactly one field invalid (week not a date, config not semver, X = 0, one unapproved program/version/Go version/GOOS/GOARCH/counter/stack, near-miss names), arbitrary bytes, well-formed JSON of the wrong shape, truncated and oversize JSON, duplicates; delivered through a body reader with short reads, a mid-stream error or an early end; after every request the answer class and the recursive listing of the storage directory are compared with a map object store and the reference configuration semantics; clauses that depend only on a pure function of the body are claimed for the request-stream/history part only; valid reports may carry fields the report type does not have or bytes after the JSON value (acceptance of the latter is not judged), and every stored object is decoded strictly: known fields only, one value; one report in five reuses the week and X of an accepted one with other content; bodies padded to limit-1 / limit / limit+1 with half of the requests declaring their length; request paths may name another week or none; bodies over the limit with a small complete value; content hashes of all stored objects are compared around every request",
 		Real:        []string{"godev/cmd/telemetrygodev handleUpload + validate", "godev/internal/middleware chain (Log, Timeout, RequestSize, Recover)", "godev/internal/content error-to-status mapping", "godev/internal/storage FSBucket", "internal/config"},
 		Stub:        []string{"no socket: requests are handed to ServeHTTP with a ResponseRecorder", "client body stream simulated (short reads, errors, early EOF)", "GCS backend not run"},
-		Assumptions: []string{"a body whose delivered prefix is itself complete JSON followed by trailing bytes is not judged (the documentation does not say)", "the URL path is a clean /upload/<date> (paths are not in the property's quantifier)"},
+		Assumptions: []string{"a body whose delivered prefix is itself complete JSON followed by trailing bytes is not judged (the documentation does not say)", "the URL path is a clean /upload/<date> (paths are not in the property's quantifier)", "one run in three ends with two valid uploads whose handling overlaps (the first stops before its open, write or close while the second is served); the pair is judged only if the server serves the second meanwhile (three seconds of real time)", "a run is non-trivial when at least one of its requests was judged"},
 	},
 	"C11": {
 		Harness: "h3", Level: "exploration",
@@ -298,7 +298,7 @@ var props = map[string]*propConfig{
 		Rule:        "one run = 1..4 simulated days of stored reports (0..40 per day, sizes from tiny to just under the 100 KiB upload limit so that merged lines exceed 64 KiB, repeated X across days, several programs and buckets), the real handleMerge per day (sometimes skipping one) and the real handleChart for single days and ranges, with the bucket listing order and Go's map iteration order inside group/partition permuted by the tape; each chart is computed three times under different permutations; checked: one merged record per stored object decoding to it, NumReports, every partition value against the reference count of distinct report IDs, byte-identical output, 404 and no chart object for a range containing a day never merged; a day may have been merged before, when one of its objects was larger (same week and X stored again with less in it); the configuration lists pre-release Go versions and versions that are equal as semantic versions; objects are stored in several textual forms; reports may have no program or items outside the configuration; X with full mantissas, above 1 or negative; ranges of a week; between chart attempts the days are merged again in another listing order",
 		Real:        []string{"godev/cmd/worker handleMerge, readMergedReports, handleChart, group, charts, partition (instrumented: map iteration order)", "godev/internal/storage FSBucket", "internal/config"},
 		Stub:        []string{"bucket handles wrapped so that the listing order comes from the tape", "requests handed to the handlers with a ResponseRecorder", "GCS, Cloud Tasks not run"},
-		Assumptions: []string{"configuration Go versions are of the form go1.N.P (the development version maps to an empty bucket name)", "zero-count buckets may be present or absent"},
+		Assumptions: []string{"configuration Go versions are of the form go1.N.P (the development version maps to an empty bucket name)", "zero-count buckets may be present or absent", "the worker process may have as few as 40 open files (RLIMIT_NOFILE is lowered in half of the runs with a busy day): a merge that keeps a day's readers open until its end is reported as failing", "overlapping chart requests are judged only if the worker serves the second while the first is stopped (three seconds of real time)"},
 	},
 	"C18": {
 		Harness: "h5", Level: "exploration",
